@@ -561,6 +561,59 @@ class World:
         if len(self.grids) < 5:
             self.add_grid(c, cm)
 
+    def op_zip_twice(self):
+        """Another tool packs one saved pair into an archive and it is read;
+        later it packs a different pair under the same archive path and member
+        names: the second read must give the second grid."""
+        from hydrodiy.gis.grid import Grid
+        cs = self.cs
+        keys = sorted(self.store)
+        if len(keys) < 2:
+            return
+        i = cs.draw("first", len(keys))
+        j = (i + 1 + cs.draw("second", len(keys) - 1)) % len(keys)
+        fz = self.root / "exchange.zip"
+        self.log.ev("zip_twice", keys[i].replace(str(self.root), ""),
+                    keys[j].replace(str(self.root), ""))
+        for key in (keys[i], keys[j]):
+            fbil = Path(key)
+            with zipfile.ZipFile(str(fz), "w") as z:
+                z.write(str(fbil.with_suffix(".hdr")), "grid.hdr")
+                z.write(str(fbil), "grid.bil")
+            try:
+                g = Grid.from_zip(self.path_arg(fz, "zt"), "grid.hdr")
+            except Exception as e:
+                raise Violation("load_failed", f"from_zip of repacked archive "
+                                f"raised {e!r}", "zip_twice")
+            check_grid(g, self.store[key], "grid read from an archive path "
+                       "that was repacked with another raster", "zip_twice")
+        self.compared = True
+        self.ctx.hit("probe.archive_repacked_and_reread")
+
+    def op_widen_dtype(self):
+        """The dtype setter converts the cells; the model is re-read (the
+        setter is not under test) and the grid goes on through save/load."""
+        cs = self.cs
+        ent = self.pick()
+        g, m, gid = ent
+        chain = {"int8": "int16", "int16": "int32", "int32": "int64",
+                 "uint8": "uint16", "uint16": "uint32", "uint32": "uint64",
+                 "float16": "float32", "float32": "float64"}
+        new = chain.get(m.dtype.name)
+        if new is None:
+            return
+        self.log.ev("widen_dtype", gid, m.dtype.name, new)
+        g.dtype = getattr(np, new)
+        nod = np.dtype(new).type(m.nodata)
+        g.nodata = nod
+        real = np.asarray(g.data)
+        if np.dtype(real.dtype) != np.dtype(new):
+            raise Violation("dtype_setter_ignored", f"grid#{gid}: data dtype "
+                            f"{real.dtype} after dtype={new}", "widen_dtype")
+        ent[1] = GModel(m.nrows, m.ncols, m.cellsize, m.xll, m.yll, new, nod,
+                        real.copy())
+        self.mutated = True
+
     def op_chdir(self):
         d = self.dirs[self.cs.draw("dir", len(self.dirs))]
         os.chdir(str(d))
@@ -729,6 +782,7 @@ OPS = [("new", 8, None), ("mutate", 10, "g"), ("save", 9, "g"),
        ("load", 9, "s"), ("foreign", 4, None), ("dict_roundtrip", 5, "g"),
        ("clone", 6, "g"), ("clone_dtype", 5, "g"), ("clip", 6, "g"),
        ("chdir", 2, None), ("cat_caller_edits_grid", 2, "c"),
+       ("zip_twice", 3, "s"), ("widen_dtype", 2, "g"),
        ("restart", 2, "s"), ("cat_new", 3, None), ("cat_delineate", 6, "c"),
        ("cat_dict", 5, "c"), ("cat_clone", 2, "c")]
 
